@@ -761,10 +761,29 @@ func c12(r *Report) {
 						}
 					}
 				}
+				// and the failure is reported to the client that posted it: http.Error with a 4xx/5xx
+				// status on every path of the error edge (silence reads as "accepted")
+				reported := len(tests) > 0
+				for _, t := range tests {
+					isErrReply := func(i ssa.Instruction) bool {
+						e, y := isCall(i, "net/http.Error")
+						if !y {
+							return false
+						}
+						k, isK := constInt(e.Common().Args[2])
+						return isK && k >= 400
+					}
+					if g.PathTo(blockStart(t.NonNil), true, isErrReply, isReturn) != nil {
+						reported = false
+					}
+				}
+				r.Decide("path", "(*M/martianhttp.Modifier).servePOST: a failure of "+name+" is answered with an error status", reported, "http.Error(rw, ..., 4xx/5xx) on every path of the error edge", "a rejected configuration is answered 200: the client believes it is active while the previous one stays in force", c.Pos())
 				r.Paths++
 				r.Decide("path", "(*M/martianhttp.Modifier).servePOST: nothing is replaced unless "+name+" succeeded", ok, "every state update is dominated by the success edge", "the active configuration can be (partly) replaced although "+name+" failed", c.Pos())
 			}
 		}
+		// the active configuration is read and replaced under the modifier's lock everywhere
+		guardedFieldsRule(r, "martianhttp", "Modifier", "mu", nil, "an exchange can see the request side of one configuration and the response side of another, or a half-written one")
 		// under the write lock
 		st := lockStates(sp, nil)
 		okL := len(muts) > 0
